@@ -92,6 +92,16 @@ def render_call(d):
         arms.extend(observer_arms(d, T, validated))
         if d["vmode"] == "std":
             arms.append(msgs_arm(d, T))
+    if d.get("const_fn") and d.get("const_inputs"):
+        from .render_value import val_src
+        cases = []
+        for i, v in enumerate(d["const_inputs"]):
+            if validated:
+                cases.append("%d => res(CK%d.clone().map(|t| t.into_inner()))" % (i, i))
+            else:
+                cases.append("%d => ok(CK%d.clone().into_inner().enc())" % (i, i))
+        arms.append('"%s" => { let i = inp["i"].as_u64().unwrap(); (match i { %s, _ => json!({"k": "noep"}) }, Value::Null) }' % (
+            "try_new_const" if validated else "new_const", ", ".join(cases)))
     arms.append('_ => (json!({"k": "noep"}), Value::Null)')
     return "pub fn call(ep: &str, inp: &Value) -> (Value, Value) {\n    match ep {\n        %s\n    }\n}\n" % ",\n        ".join(arms)
 
@@ -336,6 +346,16 @@ def render_module(d):
     inner = inner_type(d).replace("T", "i32") if d.get("gen_decl") else inner_type(d)
     src += "pub type Inner = %s;\n" % inner
     src += "pub type NtC = Nt%s;\n" % d.get("gen_use", "")
+    if d.get("const_fn") and d.get("const_inputs"):
+        # the constructor evaluated by rustc's compile-time interpreter (an independent evaluator of the same generated code)
+        from .render_value import val_src
+        err = "CErr" if d["vmode"] == "custom" else "NtError"
+        for i, v in enumerate(d["const_inputs"]):
+            lit = val_src(d, v)
+            if d["vmode"] == "none":
+                src += "pub const CK%d: Nt = Nt::new(%s);\n" % (i, lit)
+            else:
+                src += "pub const CK%d: Result<Nt, %s> = Nt::try_new(%s);\n" % (i, err, lit)
     if not d.get("minimal_driver"):
         src += render_variant_match(d)
         src += render_helpers(d)
